@@ -24,6 +24,8 @@ var mutVocab = []string{
 	"foo", "_", "7", "0x1F", "-3", "0", `"str"`, `ascii"x"`, "`raw`", "autoa", "autob",
 	// hostile: NUL, U+FFFD (valid UTF-8), CR, a 4-byte rune, an unterminated string / raw string, a lone surrogate-free BOM
 	"\x00", "\ufffd", "\r", "\U0001F600", `"unterminated`, "`unterminated", "\ufeff", "é", "#", "//", "/", "&", "|", "$",
+	// decimal digits that are not ASCII (unicode.IsDigit accepts them), a lone minus
+	"٣", "７5", "-٣", "-",
 }
 
 type outcome struct {
@@ -257,6 +259,15 @@ func checkC18(c *Ctx) {
 			}
 		}
 		c.Cov("condition_neighbourhood_size", int64(n))
+	}
+	// statements after a poryswitch case that ends in continue (all loop kinds, selected by match or by '_'),
+	// in normal mode with the switch set and in lint mode without
+	{
+		_, srcs, os := contAfterPS()
+		for i := range srcs {
+			inputs = append(inputs, robustInput{srcs[i], Opts{Optimize: i%2 == 0, Switches: os[i].Switches}})
+			inputs = append(inputs, robustInput{srcs[i], Opts{Optimize: i%2 == 1}})
+		}
 	}
 	// every program literal of the repository's own tests (about ninety of them malformed, one per
 	// error message): their errors must be located too, in both modes
